@@ -1311,6 +1311,25 @@ class BuiltinsMixin(object):
                 out.append((p, v))
         return out
 
+    def ex_YieldFrom(self, node, fr, path):
+        # `yield from xs` yields every element of xs
+        out = []
+        for (p, v) in self.eval(node.value, fr, path):
+            if isinstance(v, Raise):
+                out.append((p, v))
+                continue
+            if isinstance(v, App) and v.op == 'gen' and \
+                    isinstance(v.args[0], Obj):
+                v = v.args[0]
+            items = self.concrete_iter(v, p)
+            if items is not None:
+                for it in items:
+                    self.st_YieldExpr(it, fr, p)
+            else:
+                self.st_YieldExpr(self.snapshot(v, p), fr, p, spread=True)
+            out.append((p, Const(None)))
+        return out
+
     def ex_JoinedStr(self, node, fr, path):
         """f'..{a}..{b!s}..' is the concatenation of the literal pieces and
         str() of the values (same summary as '..{}..{}..'.format(a, b))"""
@@ -1860,7 +1879,24 @@ class BuiltinsMixin(object):
                 add(self.snapshot(args[0], path), spread=True)
             return [(path, Const(None))]
         if name == 'update' and kind == 'dict' and len(args) == 1:
-            add(self.snapshot(args[0], path), spread=True)
+            src = args[0]
+            if isinstance(src, App) and src.op == 'gen' and \
+                    isinstance(src.args[0], Obj):
+                src = src.args[0]
+            if isinstance(src, Obj) and path.heap[src.oid].kind == 'list':
+                # an iterable of (key, value) pairs
+                pairs = path.heap[src.oid].parts
+                if all(q.kind == 'elem' and isinstance(q.val, Tup) and
+                       len(q.val.items) == 2 for q in pairs):
+                    for q in pairs:
+                        h.parts.append(Part(
+                            'elem', q.val.items[1], key=q.val.items[0],
+                            gens=tuple(gl) + tuple(q.gens),
+                            conds=tuple(conds) + tuple(q.conds)))
+                    return [(path, Const(None))]
+                self.inconclusive('dict.update with an iterable that is '
+                                  'not a sequence of pairs', node)
+            add(self.snapshot(src, path), spread=True)
             return [(path, Const(None))]
         if name == 'setdefault' and kind == 'dict' and not gens and \
                 len(args) in (1, 2):
